@@ -25,10 +25,10 @@ theorem getElem_natsGo (ws : List Nat) (k : Nat) (h : k < (natsGo ws).length) :
 
 /-- the loop over the cells from position `|done|` on writes the model's `renderCells` of the remaining cells and widths -/
 theorem range2_agrees (tr : table.TextRenderer) (st : Color.State) (ff : Fmt.FloatFmt) (hst : st.NoColor = true)
-    (row : List Table.Cell) (ws : List Nat) (hws : ∀ x ∈ ws, x ≤ 1000000) :
+    (R : table.Row) (row : List Table.Cell) (hR : RowRel R row) (ws : List Nat) (hws : ∀ x ∈ ws, x ≤ 1000000) :
     ∀ (rest done : List Table.Cell) (wrest wpre : List Nat) (w : String), row = done ++ rest → ws = wpre ++ wrest →
       wpre.length = done.length →
-      table.TextRenderer.Render.range2 st ff tr (natsGo ws) (rowGo row) (rest.map cellGo) (done.length : Int) w
+      table.TextRenderer.Render.range2 st ff tr (natsGo ws) R (rest.map cellGo) (done.length : Int) w
         = match Table.renderCells (rendOf tr) rest wrest with
           | some s => Outcome.ok (Flow.next (w ++ String.ofList s))
           | none => Outcome.panic idxPanic := by
@@ -53,12 +53,12 @@ theorem range2_agrees (tr : table.TextRenderer) (st : Color.State) (ff : Fmt.Flo
         rw [getElem_natsGo]; simp [hw, ← hlen]
       have hx : x ≤ 1000000 := hws x (by rw [hw]; simp)
       simp only [index_ok _ _ (Int.natCast_nonneg _) hlen', hget, renderCell_agrees tr c x hx w st ff hst, Outcome.bind]
-      have hcells : (rowGo row).cells = (done ++ c :: rest).map cellGo := by rw [hrow]; rfl
+      have hcells : R.cells = (done ++ c :: rest).map cellGo := by rw [← hrow]; exact hR
       have hdone : done ++ c :: rest = (done ++ [c]) ++ rest := by simp
       have hdl : ((done.length : Nat) : Int) + 1 = (((done ++ [c]).length : Nat) : Int) := by simp
       cases rest with
       | nil =>
-        have hlt : ¬ (((done.length : Nat) : Int) < len (rowGo row).cells - 1) := by
+        have hlt : ¬ (((done.length : Nat) : Int) < len R.cells - 1) := by
           rw [hcells]; simp
         simp only [hlt, decide_false, Bool.false_eq_true, if_false]
         rw [hdl]
@@ -67,10 +67,10 @@ theorem range2_agrees (tr : table.TextRenderer) (st : Color.State) (ff : Fmt.Flo
         rw [this]
         simp [Table.renderCells]
       | cons c' rest =>
-        have hlt : ((done.length : Nat) : Int) < len (rowGo row).cells - 1 := by
+        have hlt : ((done.length : Nat) : Int) < len R.cells - 1 := by
           rw [hcells]; simp; omega
-        have hi : index (rowGo row).cells (((done.length : Nat) : Int) + 1) = Outcome.ok (cellGo c') := by
-          have hl2 : (((done.length : Nat) : Int) + 1).toNat < (rowGo row).cells.length := by
+        have hi : index R.cells (((done.length : Nat) : Int) + 1) = Outcome.ok (cellGo c') := by
+          have hl2 : (((done.length : Nat) : Int) + 1).toNat < R.cells.length := by
             rw [hcells]; simp
           rw [index_ok _ _ (by omega) hl2]
           congr 1
@@ -103,28 +103,33 @@ theorem getLast_cells (c0 : Table.Cell) (cs : List Table.Cell) :
 
 /-- one row: `"| "`/`"+-"`, the cells, `" |\n"`/`"-+\n"` -/
 theorem row_agrees (tr : table.TextRenderer) (st : Color.State) (ff : Fmt.FloatFmt) (hst : st.NoColor = true)
-    (ws : List Nat) (hws : ∀ x ∈ ws, x ≤ 1000000) (row : List Table.Cell) (rows : List table.Row) (w : String) :
-    table.TextRenderer.Render.range1 st ff tr (natsGo ws) (rowGo row :: rows) w
+    (ws : List Nat) (hws : ∀ x ∈ ws, x ≤ 1000000) (R : table.Row) (row : List Table.Cell) (hR : RowRel R row)
+    (rows : List table.Row) (w : String) :
+    table.TextRenderer.Render.range1 st ff tr (natsGo ws) (R :: rows) w
       = match Table.renderRow (rendOf tr) ws row with
         | some l => table.TextRenderer.Render.range1 st ff tr (natsGo ws) rows (w ++ String.ofList (l ++ ['\n']))
         | none => Outcome.panic idxPanic := by
   rw [table.TextRenderer.Render.range1]
   cases row with
-  | nil => simp [rowGo, index, Outcome.bind, Table.renderRow, idxPanic]
+  | nil =>
+    have : R.cells = [] := hR
+    simp [this, index, Outcome.bind, Table.renderRow, idxPanic]
   | cons c0 cs =>
-    have h0 : index (rowGo (c0 :: cs)).cells 0 = Outcome.ok (cellGo c0) := by
-      simp [rowGo, index]
+    have hc : R.cells = (c0 :: cs).map cellGo := hR
+    have h0 : index R.cells 0 = Outcome.ok (cellGo c0) := by
+      simp [hc, index]
     simp only [h0, Outcome.bind, isSep_agrees, Writer.Write, Option.isSome_none, Bool.false_eq_true, if_false]
     have key : ∀ w0 : String,
-        table.TextRenderer.Render.range2 st ff tr (natsGo ws) (rowGo (c0 :: cs)) (rowGo (c0 :: cs)).cells 0 w0
+        table.TextRenderer.Render.range2 st ff tr (natsGo ws) R R.cells 0 w0
           = match Table.renderCells (rendOf tr) (c0 :: cs) ws with
             | some s => Outcome.ok (Flow.next (w0 ++ String.ofList s))
             | none => Outcome.panic idxPanic := by
       intro w0
-      have := range2_agrees tr st ff hst (c0 :: cs) ws hws (c0 :: cs) [] ws [] w0 rfl rfl rfl
-      simpa [rowGo] using this
-    have hlast : index (rowGo (c0 :: cs)).cells (len (rowGo (c0 :: cs)).cells - 1)
-        = Outcome.ok (cellGo (((c0 :: cs).getLast?).getD c0)) := getLast_cells c0 cs
+      have := range2_agrees tr st ff hst R (c0 :: cs) hR ws hws (c0 :: cs) [] ws [] w0 rfl rfl rfl
+      rw [hc]
+      simpa using this
+    have hlast : index R.cells (len R.cells - 1)
+        = Outcome.ok (cellGo (((c0 :: cs).getLast?).getD c0)) := by rw [hc]; exact getLast_cells c0 cs
     simp only [Table.renderRow]
     cases hsep : c0.isSep <;>
       simp only [Bool.false_eq_true, if_false, if_true, key] <;>
@@ -137,25 +142,33 @@ theorem row_agrees (tr : table.TextRenderer) (st : Color.State) (ff : Fmt.FloatF
           (congr 1; apply String.ext; simp [String.append_assoc])
 
 theorem rows_agrees (tr : table.TextRenderer) (st : Color.State) (ff : Fmt.FloatFmt) (hst : st.NoColor = true)
-    (ws : List Nat) (hws : ∀ x ∈ ws, x ≤ 1000000) : ∀ (rows : List (List Table.Cell)) (w : String),
-    table.TextRenderer.Render.range1 st ff tr (natsGo ws) (rows.map rowGo) w
+    (ws : List Nat) (hws : ∀ x ∈ ws, x ≤ 1000000) : ∀ (rows : List (List Table.Cell)) (Rs : List table.Row) (w : String),
+    RowsRel Rs rows →
+    table.TextRenderer.Render.range1 st ff tr (natsGo ws) Rs w
       = match Table.renderRows (rendOf tr) ws rows with
         | some ls => Outcome.ok (Flow.next (w ++ String.ofList (ls.flatMap (· ++ ['\n']))))
         | none => Outcome.panic idxPanic := by
   intro rows
   induction rows with
-  | nil => intro w; simp [table.TextRenderer.Render.range1, Table.renderRows]
+  | nil =>
+    intro Rs w h
+    cases Rs with
+    | nil => simp [table.TextRenderer.Render.range1, Table.renderRows]
+    | cons _ _ => exact absurd h (by simp [RowsRel])
   | cons row rows ih =>
-    intro w
-    rw [List.map_cons, row_agrees tr st ff hst ws hws]
-    simp only [Table.renderRows]
-    cases Table.renderRow (rendOf tr) ws row with
-    | none => rfl
-    | some l =>
-      simp only [ih]
-      cases Table.renderRows (rendOf tr) ws rows with
+    intro Rs w h
+    cases Rs with
+    | nil => exact absurd h (by simp [RowsRel])
+    | cons R Rs =>
+      rw [row_agrees tr st ff hst ws hws R row h.1]
+      simp only [Table.renderRows]
+      cases Table.renderRow (rendOf tr) ws row with
       | none => rfl
-      | some ls => simp [ofList_append, String.append_assoc]
+      | some l =>
+        simp only [ih Rs _ h.2]
+        cases Table.renderRows (rendOf tr) ws rows with
+        | none => rfl
+        | some ls => simp [ofList_append, String.append_assoc]
 
 /-! ## the whole function -/
 
@@ -183,23 +196,23 @@ theorem widthsPass1_length (R : Table.Renderer) (rows : List (List Table.Cell)) 
     (h : Table.widthsPass1 R ws rows = some ws') : ws'.length = ws.length :=
   (Table.le2_length (Table.widthsPass1_spec R rows ws ws' h).1).symm
 
-/-- **`TextRenderer.Render` = `Table.renderText`**: the same bytes, the same panic outcomes -/
-theorem Render_agrees (tr : table.TextRenderer) (t : Table.Table) (w : String) (cs : Color.State) (ff : Fmt.FloatFmt)
-    (hc : tr.Color = false) (hw : WidthsOK (rendOf tr) t) :
-    table.TextRenderer.Render tr (tableGo t) w cs ff
+/-- **`TextRenderer.Render` = `Table.renderText`**: the same bytes, the same panic outcomes — for every Go table that stands for the
+model table (`TableRel`: the same column groups and cells, any capacities) -/
+theorem Render_agrees_rel (tr : table.TextRenderer) (T : table.Table) (t : Table.Table) (hT : TableRel T t) (w : String)
+    (cs : Color.State) (ff : Fmt.FloatFmt) (hc : tr.Color = false) (hw : WidthsOK (rendOf tr) t) :
+    table.TextRenderer.Render tr T w cs ff
       = match Table.renderText (rendOf tr) t with
         | .ok s => Outcome.ok ({ tr with table := GoZero.zero }, w ++ String.ofList s, none)
         | .panic _ => Outcome.panic idxPanic := by
   rw [Render_unfold]
   have hR : ∀ x : table.Table, rendOf { tr with table := x } = rendOf tr := fun _ => rfl
-  have hm : makeSlice (α := Int) (table.Table.Width (tableGo t)) = Outcome.ok (natsGo (List.replicate t.width 0)) := by
-    simp [makeSlice, table.Table.Width, tableGo, Table.Table.width, natsGo]
+  have hcols : T.columns = natsGo t.columns := hT.1
+  have hm : makeSlice (α := Int) (table.Table.Width T) = Outcome.ok (natsGo (List.replicate t.width 0)) := by
+    simp [makeSlice, table.Table.Width, hcols, Table.Table.width, natsGo]
   simp only [hm, Outcome.bind]
-  have h1 := pass1_agrees { tr with table := tableGo t } ff t.rows (List.replicate t.width 0)
+  have h1 := pass1_agrees { tr with table := T } ff t.rows T.rows (List.replicate t.width 0) hT.2
   rw [hR] at h1
-  have hrows : (tableGo t).rows = t.rows.map rowGo := rfl
-  have hcols : (tableGo t).columns = natsGo t.columns := rfl
-  simp only [hrows, hcols, h1]
+  simp only [hcols, h1]
   unfold Table.renderText Table.renderLines Table.finalWidths
   unfold WidthsOK Table.finalWidths at hw
   cases hp1 : Table.widthsPass1 (rendOf tr) (List.replicate t.width 0) t.rows with
@@ -213,9 +226,9 @@ theorem Render_agrees (tr : table.TextRenderer) (t : Table.Table) (w : String) (
     obtain ⟨gm, hg, hrel⟩ := pass2_agrees t.columns ws1 hl1
     simp only [hg, pass3_agrees gm t.columns ws1 hrel]
     have hws := hw _ rfl
-    have hst : ({ cs with NoColor := !({ tr with table := tableGo t } : table.TextRenderer).Color } : Color.State).NoColor = true := by
+    have hst : ({ cs with NoColor := !({ tr with table := T } : table.TextRenderer).Color } : Color.State).NoColor = true := by
       simp [hc]
-    have h4 := rows_agrees { tr with table := tableGo t } _ ff hst _ hws t.rows w
+    have h4 := rows_agrees { tr with table := T } _ ff hst _ hws t.rows T.rows w hT.2
     rw [hR] at h4
     simp only [h4]
     cases Table.renderRows (rendOf tr) (Table.widthsPass2 t.columns ws1) t.rows with
@@ -227,6 +240,15 @@ theorem Render_agrees (tr : table.TextRenderer) (t : Table.Table) (w : String) (
           = w ++ String.ofList (List.flatMap (fun x => x ++ ['\n']) ls ++ ['\n']) := by
         apply String.ext; simp
       rw [this]
+
+/-- `Render_agrees_rel` for the Go table `tableGo t` (what the builder methods make of `t`: `TransTableBuild`) -/
+theorem Render_agrees (tr : table.TextRenderer) (t : Table.Table) (w : String) (cs : Color.State) (ff : Fmt.FloatFmt)
+    (hc : tr.Color = false) (hw : WidthsOK (rendOf tr) t) :
+    table.TextRenderer.Render tr (tableGo t) w cs ff
+      = match Table.renderText (rendOf tr) t with
+        | .ok s => Outcome.ok ({ tr with table := GoZero.zero }, w ++ String.ofList s, none)
+        | .panic _ => Outcome.panic idxPanic :=
+  Render_agrees_rel tr (tableGo t) t (tableGo_rel t) w cs ff hc hw
 
 /-- non-vacuity: a 2-column table with a separator row, rendered through the translated code -/
 example : table.TextRenderer.Render ⟨GoZero.zero, false, false, 2⟩
